@@ -262,6 +262,17 @@ def gen(tier, seed):
             continue
         mods.append(m)
         n += 1
+    from . import model
+    model.TYPE_WRAP = model.generic_header_wrap
+    try:
+        for k, (fl, r, mode) in enumerate([(['p', 'm', 'p'], [7, None, -3], 'both_ord'), (['p', 'n', 'i'], [None, None, None], 'pord')]):
+            shape, ranks = place(fl, r, 2 * k + 2)     # named struct / enum placements
+            m = emit(f'm{n:04d}', f'{S.shape_id(shape)}/ranks={rid(r)}/{mode}/generic header <G, const N> where G: Copy at <u8, 3>', shape, ranks, mode)
+            if m is not None:
+                mods.append(m)
+                n += 1
+    finally:
+        model.TYPE_WRAP = None
     return mods
 
 
